@@ -225,6 +225,9 @@ def check(pid, tier, seed):
                 bins[key] = run.build_test(key[0], race, kind == "fuzz")
             binp = bins[key]
             n = u["n"][tier]
+            scale = float(os.environ.get("VERIF_SCALE", "1"))  # development aid: shrink the counts
+            if scale != 1 and kind in ("rapid", "fuzz"):
+                n = max(1, int(n * scale))
             shards = u.get("shards", {}).get(tier, K)
             for k in range(shards):
                 name = "%s.%d" % (u["test"], k)
@@ -234,7 +237,8 @@ def check(pid, tier, seed):
                 env["VERIF_SEED"] = str(seed)
                 env["VERIF_SHARD"] = "%d/%d" % (k, shards)
                 env["VERIF_RUNDIR"] = run.dir
-                env["VERIF_PART"] = os.path.join(run.dir, "parts", name)
+                partpath = os.path.join(run.dir, "parts", name)
+                env["VERIF_PART"] = partpath
                 failpath = os.path.join(run.dir, "fail", name + ".json")
                 env["VERIF_FAIL"] = failpath
                 env["VERIF_N"] = str(n)
@@ -255,7 +259,7 @@ def check(pid, tier, seed):
                     env["VERIF_CORPUS"] = src
                     env.pop("VERIF_PART", None)  # worker processes would clobber one another's parts
                 timeout = u.get("timeout", {}).get(tier, 900 if tier == "quick" else 7200)
-                jobs.append(Job(name, cmd, env, wd, os.path.join(run.dir, "logs", name + ".log"), failpath, env["VERIF_PART"], timeout, kind, n))
+                jobs.append(Job(name, cmd, env, wd, os.path.join(run.dir, "logs", name + ".log"), failpath, partpath, timeout, kind, n))
         # fuzz jobs use all cores: run them alone, after the others
         normal = [j for j in jobs if j.kind != "fuzz"]
         fuzz = [j for j in jobs if j.kind == "fuzz"]
